@@ -3,6 +3,8 @@ use mc_core::Ctx;
 
 mod c45;
 mod mock;
+mod reparse;
+mod wasmgen;
 mod c46;
 mod c47;
 
